@@ -134,6 +134,87 @@ def doSched (a : Json) : Except String Json := do
   let evs ← (← J.getArr a "events").toList.mapM decodeEv
   pure <| J.obj [("steps", Json.arr (runSched (init m) evs).toArray)]
 
+/-! `C05.full {events}`: reconfiguration and interleaving together on one schema `("a", "s")`: the maps and
+    lookups of `KG.Model.LocalLimiter`, one small-step counter (`KG.Model.MaxInflight.Sys`) per max-in-flight
+    limiter object (the `Heap` of `c05_bound_every_limiter`). A thread = a request loop: lookup (one step),
+    then the atomic steps of `TryAcquire` / `Release` on the object it was handed. -/
+structure Full where
+  w : World
+  sys : Nat → KG.Model.MaxInflight.Sys
+  bind : Nat → Option Nat
+
+def fullCluster : Str := [97]
+def fullSchema : Str := [115]
+
+def Full.init : Full := { w := World.init, sys := fun _ => KG.Model.MaxInflight.init 0, bind := fun _ => none }
+
+inductive FEv where
+  | step (t : Nat)
+  | sync (schemas : List Schema)
+
+def decodeFEv (j : Json) : Except String FEv :=
+  match J.optObj j "sync" with
+  | some v => do pure (.sync (← (← v.getArr?).toList.mapM decodeSchema))
+  | none => do pure (.step (← J.getNat j "t"))
+
+/-- state of the limiter currently handed out for the schema: `(count, max)` of its counter, or `(-1, 0)` -/
+def curState (f : Full) : Int × Nat :=
+  match getOrDefault f.w fullCluster fullSchema with
+  | some (some id) =>
+    match f.w.heap id with
+    | some (.counter _) => ((f.sys id).count, (f.sys id).max)
+    | _ => (-1, 0)
+  | _ => (-1, 0)
+
+def fullOut (f : Full) (at_ out : String) : Json :=
+  let st := curState f
+  J.obj [("at", at_), ("out", out), ("count", J.int st.1), ("max", J.nat st.2)]
+
+/-- after a `Sync`: every max-in-flight limiter object has the limit the sequential model gives it (a new
+    object starts as `init max`, a resized one keeps its counter) -/
+def syncSys (w : World) (sys : Nat → KG.Model.MaxInflight.Sys) : Nat → KG.Model.MaxInflight.Sys := fun i =>
+  match w.heap i with
+  | some (.counter c) => { sys i with max := c.max }
+  | _ => sys i
+
+def fullStep (f : Full) : FEv → Except String (Full × Json)
+  | .sync schemas =>
+    match KG.Model.LocalLimiter.sync f.w fullCluster schemas with
+    | .error e => .error e
+    | .ok w' =>
+      let f' : Full := { f with w := w', sys := syncSys w' f.sys }
+      .ok (f', fullOut f' "" "none")
+  | .step t =>
+    match f.bind t with
+    | none =>
+      match getOrDefault f.w fullCluster fullSchema with
+      | none => .ok (f, fullOut f "Lookup" "admitted+released")
+      | some none => .error panicNil
+      | some (some id) =>
+        match f.w.heap id with
+        | none => .error "model: dangling limiter"
+        | some (.counter _) =>
+          let f' := { f with bind := fun u => if u = t then some id else f.bind u }
+          .ok (f', fullOut f' (pcName ((f.sys id).pc t)) "none")
+        | some _ => .ok (f, fullOut f "Lookup" "admitted+released")
+    | some id =>
+      let r := KG.Model.MaxInflight.stepThread (f.sys id) t
+      let done := r.2 == .rejected || r.2 == .released
+      let f' : Full := { f with sys := fun i => if i = id then r.1 else f.sys i,
+                                bind := fun u => if u = t ∧ done then none else f.bind u }
+      .ok (f', fullOut f' (if done then "Lookup" else pcName (r.1.pc t)) (outName r.2))
+
+def runFull : Full → List FEv → List Json
+  | _, [] => []
+  | f, e :: es =>
+    match fullStep f e with
+    | .error m => [J.obj [("at", ""), ("out", "panic"), ("msg", m)]]
+    | .ok (f', j) => j :: runFull f' es
+
+def doFull (a : Json) : Except String Json := do
+  let evs ← (← J.getArr a "events").toList.mapM decodeFEv
+  pure <| J.obj [("steps", Json.arr (runFull Full.init evs).toArray)]
+
 def decodeChoice : Json → Except String Choice
   | .str "go" => pure .go
   | .str "exit" => pure .exit
@@ -157,6 +238,7 @@ def handle (m : String) (a : Json) : Option (Except String Json) :=
   | "hist" => some (doHist a)
   | "sched" => some (doSched a)
   | "serve" => some (doServe a)
+  | "full" => some (doFull a)
   | _ => none
 
 end KG.Driver.C05
